@@ -6,6 +6,7 @@ import (
 	"testing"
 
 	"github.com/chrislusf/seaweedfs/weed/filer"
+	"github.com/chrislusf/seaweedfs/weed/pb/filer_pb"
 
 	"verifharness/vlib"
 )
@@ -111,6 +112,16 @@ func exhaustCase(t *testing.T, specs []spec, spaceBytes int, readAllWindows bool
 	for a := 0; a < spaceBytes; a++ {
 		for b := a + 1; b <= spaceBytes; b++ {
 			checkViews(t, m, filer.ViewFromChunks(noLookup, chunks, int64(a), int64(b-a)), a, b, fmt.Sprintf("%s views(%d,%d)", desc, a, b-a))
+		}
+	}
+	if len(chunks) >= 2 { // same chunks listed in reverse order: same content
+		rev := make([]*filer_pb.FileChunk, len(chunks))
+		for i, c := range chunks {
+			rev[len(chunks)-1-i] = c
+		}
+		rviews := filer.ViewFromChunks(noLookup, rev, 0, math.MaxInt64)
+		if !sameInts(render(rviews, m, m.total), render(full, m, m.total)) {
+			t.Fatalf("%s: content depends on the list order: views %s, reversed list %s", desc, viewsString(full), viewsString(rviews))
 		}
 	}
 	compacted, garbage := filer.CompactFileChunks(noLookup, chunks)
